@@ -419,6 +419,7 @@ class HamiltonianChain(MarkovChain):
         items = {
             "inv_mass": self.mass.inv_mass,
             "inv_temp": self.inv_temp,
+            "temperature": self.temperature,
             "theta": self.theta,
             "probs": self.probs,
             "leapfrog_steps": self.leapfrog_steps,
@@ -462,7 +463,12 @@ class HamiltonianChain(MarkovChain):
             display_progress=bool(D["display_progress"]),
         )
 
-        chain.temperature = 1.0 / chain.inv_temp
+        # 1 / (1 / T) is not always T: restore the stored value where the file has it
+        chain.inv_temp = float(D["inv_temp"])
+        if "temperature" in D:
+            chain.temperature = float(D["temperature"])
+        else:
+            chain.temperature = 1.0 / chain.inv_temp
         chain.probs = list(D["probs"])
         chain.leapfrog_steps = list(D["leapfrog_steps"])
         chain.n_parameters = int(D["n_parameters"])
